@@ -97,10 +97,22 @@ JsonTyped ==
   \cup { V("namedmap", <<>>, <<a, List(<<b>>)>>, << <<60>>, <<107>> >>) : a \in TypedPos, b \in TypedPos }
   \cup { V("namedlist", <<>>, <<a, b>>, <<>>) : a \in TypedPos, b \in TypedPos }
 
+(* XML documents whose elements are named like HTML void elements:          *)
+(*   feed      <entry><title/><link/><meta/><img src=""><alt/></img><after/><br/>*</entry> *)
+(*   voidroot  <br><t/></br>                                                 *)
+(* with text after them (siblings) and text that looks like an HTML entity   *)
+FeedTexts == { <<>>, <<97>>, <<38, 110, 98, 115, 112, 59>>, <<97, 60, 38, 34, 195, 169, 62>> }   \* "", a, &nbsp; , mixed
+XmlFeeds ==
+  { V("feed", <<>>, <<Str(<<116>>), Str(l), Str(m), img, Str(af), List(br)>>, <<>>) :
+      l \in FeedTexts, m \in { <<>>, <<109>> }, img \in { Null, Struct(<<Str(<<115>>), Str(<<97>>)>>) },
+      af \in { <<97, 102>>, <<38, 110, 98, 115, 112, 59>> },
+      br \in { <<>>, <<Str(<<97>>)>>, <<Str(<<97>>), Str(<<98>>)>> } }
+  \cup { V("voidroot", <<>>, <<Str(t)>>, <<>>) : t \in FeedTexts }
+
 RTValues(codec) ==
   CASE codec = "json"  -> AnyValues(JsonAtoms) \cup JsonStructs \cup JsonTyped
     [] codec = "yaml"  -> AnyValues(YamlAtoms)
-    [] codec = "xml"   -> XmlStructs
+    [] codec = "xml"   -> XmlStructs \cup XmlFeeds
     [] codec = "text"  -> { Str(s) : s \in ValidStrings \cup BinaryStrings \cup TrickyStrings }
     [] codec = "bytes" -> { Str(s) : s \in ValidStrings \cup BinaryStrings }
 
